@@ -74,6 +74,9 @@ impl<R: Read + Seek> ReadBox<&mut R> for MinfBox {
                     "minf box contains a box with a larger size than it",
                 ));
             }
+            if s == 0 {
+                return Err(Error::InvalidData("minf box contains a box with size 0"));
+            }
 
             match name {
                 BoxType::VmhdBox => {
